@@ -24,6 +24,11 @@ TECHNIQUE = "static analysis: ordered effect script of the loop tail with guards
 
 
 def run(ctx):
+    _run_main6(ctx)
+    _round6(ctx)
+
+
+def _run_main6(ctx):
     with ctx.rule('R18.1', 'client->I/O hand-off channels are bounded by the tuning value', floor=6) as r:
         mk = []
         for p, fn in sorted(ctx.fns.items()):
@@ -142,3 +147,14 @@ def run(ctx):
         A.unique_callers(ctx, r, 'append:callers', 'serialize::SealableOutputBuffer::append', ['io_loop::Inner::process_channel_message'])
         A.unique_callers(ctx, r, 'process_channel_message:callers', 'io_loop::Inner::process_channel_message', ['io_loop::Inner::handle_channel0_readable', 'io_loop::Inner::handle_channel_readable'])
         A.unique_callers(ctx, r, 'handle_channel_readable:callers', 'io_loop::Inner::handle_channel_readable', ['io_loop::IoLoop::handle_steady_event'])
+
+
+def _round6(ctx):
+    """Rules that are necessary conditions of this property too (found by seeding round 6)."""
+    from rules import arms as A
+    with ctx.rule('R18.7', 'while throttled no channel queue is polled: the only (re-)registrations of a channel receiver are its birth and the resume edge', floor=3) as r:
+        from rules import panics
+        reg = sorted((ctx.owner(x[0]), x[1], x[4]) for x in panics.registrations(ctx) if x[1] in ('register', 'reregister') and x[4].endswith('slot.rx'))
+        r.eq('channel-receiver:registration-sites', reg, [('io_loop::Inner::allocate_channel', 'register', 'slot.rx'), ('io_loop::Inner::reregister_nonzero_channels', 'reregister', 'slot.rx')], None,
+             why='re-arming a channel anywhere else lets its publisher keep filling outbuf during a stall')
+        A.include(ctx, r, 'c01', 'R01.12')
